@@ -54,6 +54,8 @@ type fakeNode struct {
 	mu     sync.Mutex
 	mutLog []string
 	getFn  getOverride
+	// getCtxFn is asked first and sees the context the caller passed
+	getCtxFn func(ctx context.Context, key []byte) (val []byte, err error, handled bool)
 	// faultFn, if set, is asked before every KV operation; a non-nil error is
 	// returned to the caller instead of performing the operation
 	faultFn func(op string, key []byte) error
@@ -84,6 +86,12 @@ func (n *fakeNode) takeMutLog() []string {
 }
 
 func (n *fakeNode) setGet(f getOverride) { n.mu.Lock(); n.getFn = f; n.mu.Unlock() }
+
+func (n *fakeNode) setGetCtx(f func(ctx context.Context, key []byte) ([]byte, error, bool)) {
+	n.mu.Lock()
+	n.getCtxFn = f
+	n.mu.Unlock()
+}
 
 func (n *fakeNode) setFault(f func(op string, key []byte) error) {
 	n.mu.Lock()
@@ -131,7 +139,13 @@ func (n *fakeNode) Get(ctx context.Context, key []byte) ([]byte, error) {
 	}
 	n.mu.Lock()
 	f := n.getFn
+	fc := n.getCtxFn
 	n.mu.Unlock()
+	if fc != nil {
+		if v, err, ok := fc(ctx, key); ok {
+			return v, err
+		}
+	}
 	if f != nil {
 		if v, err, ok := f(key); ok {
 			return v, err
@@ -448,12 +462,14 @@ func certWithCN(cn string) *x509.Certificate {
 		Subject:   pkix.Name{CommonName: cn},
 		PublicKey: pub,
 	})
-	if err != nil {
-		panic(err)
+	var c *x509.Certificate
+	if err == nil {
+		c, err = x509.ParseCertificate(der)
 	}
-	c, err := x509.ParseCertificate(der)
 	if err != nil {
-		panic(err)
+		// a common name the x509 encoder refuses: the server only ever reads the
+		// parsed subject, so hand it a bare parsed form
+		c = &x509.Certificate{Subject: pkix.Name{CommonName: cn}}
 	}
 	certCache[cn] = c
 	return c
@@ -573,4 +589,85 @@ func nodeEq(a, b *protocol.Node) bool {
 type tb interface {
 	Fatalf(string, ...any)
 	Helper()
+}
+
+// ---- storage faults ----------------------------------------------------------------------
+
+// kvFault makes selected operations of the fake KV fail during one step.
+type kvFault struct {
+	Ops       string          // an operation name, or any-mutation | any-read | any
+	KeyPrefix string          // only keys with this prefix ("" = all)
+	Nth       int             // 0 = every matching call, n = only the n-th matching call
+	Err       string          // see kvFaultErrs
+	Skip      map[string]bool // operations never failed
+}
+
+var (
+	kvFaultErrs = map[string]error{
+		"plain":           errors.New("kv storage fault (generated)"),
+		"chord-retryable": chord.ErrKVStaleOwnership,
+		"chord-node-gone": chord.ErrNodeGone,
+		"deadline":        context.DeadlineExceeded,
+	}
+	kvFaultErrNames = []string{"plain", "chord-retryable", "chord-node-gone", "deadline"}
+	kvMutatingOps   = map[string]bool{"Put": true, "Delete": true, "PrefixAppend": true, "PrefixRemove": true, "Acquire": true, "Renew": true, "Release": true}
+)
+
+func (f *kvFault) String() string {
+	if f == nil {
+		return "none"
+	}
+	n := "every"
+	if f.Nth > 0 {
+		n = fmt.Sprintf("call#%d", f.Nth)
+	}
+	s := f.Ops + "/" + n + "/" + f.Err
+	if f.KeyPrefix != "" {
+		s += "/" + f.KeyPrefix
+	}
+	return s
+}
+
+// install arms the fault and returns a func listing the calls it made fail.
+func (f *kvFault) install(kv *fakeNode) func() []string {
+	if f == nil {
+		kv.setFault(nil)
+		return func() []string { return nil }
+	}
+	var mu sync.Mutex
+	var fired []string
+	matched := 0
+	e := kvFaultErrs[f.Err]
+	kv.setFault(func(op string, key []byte) error {
+		if f.Skip[op] {
+			return nil
+		}
+		switch f.Ops {
+		case "any":
+		case "any-mutation":
+			if !kvMutatingOps[op] {
+				return nil
+			}
+		case "any-read":
+			if kvMutatingOps[op] {
+				return nil
+			}
+		default:
+			if op != f.Ops {
+				return nil
+			}
+		}
+		if f.KeyPrefix != "" && !strings.HasPrefix(string(key), f.KeyPrefix) {
+			return nil
+		}
+		mu.Lock()
+		defer mu.Unlock()
+		matched++
+		if f.Nth > 0 && matched != f.Nth {
+			return nil
+		}
+		fired = append(fired, op+" "+string(key))
+		return e
+	})
+	return func() []string { mu.Lock(); defer mu.Unlock(); return append([]string{}, fired...) }
 }
